@@ -21,11 +21,15 @@ type optVec struct {
 	MaxDepth   int  `json:"max_depth,omitempty"`
 	Align      bool `json:"align,omitempty"`
 	WriteLimit int  `json:"write_limit,omitempty"`
+	// FloatFormat "%g" is the documented default verb spelled out: it prints the
+	// shortest text that reads back as the same float64, so the round trip holds
+	FloatFormat string `json:"float_format,omitempty"`
 }
 
 func (o *optVec) options() *ojg.Options {
 	op := ojg.DefaultOptions
 	op.Indent, op.Tab, op.Sort, op.HTMLUnsafe = o.Indent, o.Tab, o.Sort, o.HTMLUnsafe
+	op.FloatFormat = o.FloatFormat
 	if o.WriteLimit > 0 {
 		op.WriteLimit = o.WriteLimit
 	}
